@@ -6,7 +6,6 @@ package operators
 
 import (
 	"regexp"
-	"strings"
 
 	"github.com/coreruleset/crs-toolchain/v2/utils"
 )
@@ -304,9 +303,7 @@ func LemmaToggleRemovalAll(s string) {}
 
 // SpecPrintable: every byte is a printable ASCII character (0x20..0x7e), hence the text is
 // one line of printable ASCII (statement A of C02).
-func SpecPrintable(s string) bool {
-	return forall(0, len(s), func(i int) bool { return 32 <= s[i] && s[i] <= 126 })
-}
+func SpecPrintable(s string) bool { return utils.SpecPrintableU(s) }
 
 //@ contract Operator.useHexEscapes
 //@   tags C02 C19
@@ -314,26 +311,16 @@ func SpecPrintable(s string) bool {
 //@   ensures printable: SpecPrintable(r)
 //@   loop 0 invariant SpecPrintable(bufContent(sb)) && 0 <= rangeIndex0 && rangeIndex0 <= len(input)
 
-// OpaqueReplaceAll: strings.ReplaceAll (uninterpreted; assumed to be a function of its
-// arguments whose result consists of bytes of s and of new).
-func OpaqueReplaceAll(s, old, new string) string { return strings.ReplaceAll(s, old, new) }
-
-//@ extern strings.ReplaceAll
-//@   params s old new
-//@   results r
-//@   ensures r == OpaqueReplaceAll(s, old, new)
-//@   ensures implies(SpecPrintable(s) && SpecPrintable(new), SpecPrintable(r))
-
 //@ contract Operator.useHexBackslashes
 //@   tags C02
 //@   results r
-//@   ensures functional: r == OpaqueReplaceAll(input, "\\\\", "\\x5c")
+//@   ensures functional: r == utils.OpaqueReplaceAll(input, "\\\\", "\\x5c")
 //@   ensures printable: implies(SpecPrintable(input), SpecPrintable(r))
 
 //@ contract Operator.includeVerticalTabInSpaceClass
 //@   tags C02
 //@   results r
-//@   ensures functional: r == OpaqueReplaceAll(input, "\\t\\n\\f\\r ", "\\s\\x0b")
+//@   ensures functional: r == utils.OpaqueReplaceAll(input, "\\t\\n\\f\\r ", "\\s\\x0b")
 //@   ensures printable: implies(SpecPrintable(input), SpecPrintable(r))
 
 // complete: the clean-up passes are applied in the order that makes the result printable
